@@ -361,6 +361,25 @@ def make_state(data: str, ancilla: str = ''):
     return L.ISC.from_ordered_list([m[x] for x in data], [m[x] for x in ancilla] if ancilla else None)
 
 
+def warm_up_composites(d) -> None:
+    """Before a circuit is built from a plain description, the description serves as the base of composite descriptions — one per
+    single excluded gate — and each composite's layers are read (what a script comparing "all gates" with "one gate left out" does).
+    What the plain description says afterwards must not depend on it (seeded changes C10-m7 / C17-m7: the parks an exclusion makes
+    necessary are appended in place to the list the base layer hands out).  Nothing the composites answer is judged here."""
+    L = lib()
+    try:
+        if d is None or isinstance(d, L.comp.CompositeRepetitionCodeDescription):
+            return
+        qids = d.qubit_ids
+        for i in range(len(qids) - 1):
+            comp = L.comp.CompositeRepetitionCodeDescription(
+                _base_description=d, _qubit_index_map={q: k for k, q in enumerate(qids)}, _connectivity=d.to_sequence(),
+                _exclude_gate_edge_ids=[L.EdgeIDObj(qids[i], qids[i + 1])])
+            _ = comp.gate_sequences
+    except Exception:   # noqa — the warm-up is not what is judged
+        pass
+
+
 def build_case(case):
     """case = dict(kind=…, …) → (fn, kwargs) for `record`.
        kinds: full | simplified  (cycles, desc, data, ancilla) ; multi (rounds, desc, data, ancilla) ;
@@ -372,6 +391,7 @@ def build_case(case):
         kw = dict(qec_cycles=case['cycles'], initial_state=make_state(case.get('data', ''), case.get('ancilla', '')))
         d = make_description(case.get('desc'))
         if d is not None:
+            warm_up_composites(d)
             kw['description'] = d
         return fn, kw
     if k == 'multi':
